@@ -544,6 +544,7 @@ func ZZVerifC03() {
 	bounds[mcrt.Preempt] = 1
 	bounds[mcrt.Switch] = 1
 	bounds[mcrt.Time] = 1
+	bounds[mcrt.Order] = 1
 	total := 2
 	budget := 100 * gotime.Second
 	if thorough {
